@@ -273,7 +273,7 @@ Definition proto_dtypes (pc : pointcloud) : list dtype := map (fun r => dtype_of
 Definition simple_new (pc : pointcloud) : rprog simple_iter :=
   let '(rot, tr) := prepare_transform (pc_transform pc) in
   let idx := prepare_indices (pc_prototype pc) in
-  (q <- qr_new (pc_file_offset pc) (proto_dtypes pc) ;;
+  (q <- qr_new (pc_file_offset pc) (pc_records pc) (proto_dtypes pc) ;;
    rgs <- rlift (prepare_ranges pc) ;;
    RRet (mkSimple pc q default_opts rot tr idx 0 [] rgs))%rprog.
 
@@ -533,7 +533,7 @@ Section Trig.
     match n with
     | O => Ok ([], q)
     | S k =>
-        match pop_fronts (q_queues q) with
+        match pop_fronts (q_proto q) (q_queues q) with
         | Ok (vs, qs) =>
             match pop_point_model it vs with
             | Ok p =>
@@ -613,13 +613,13 @@ Definition raw_read_all (fuel : nat) (log_size : N) (pc : pointcloud) : rprog (l
   (it <- raw_new (pc_file_offset pc) (pc_records pc) (proto_dtypes pc) ;; raw_collect fuel log_size it [])%rprog.
 
 (** [n] complete points from the front of the queues *)
-Fixpoint pop_raws (n : nat) (qs : list (list rvalue)) : res (list (list rvalue) * list (list rvalue)) :=
+Fixpoint pop_raws (n : nat) (proto : list dtype) (qs : list (list rvalue)) : res (list (list rvalue) * list (list rvalue)) :=
   match n with
   | O => Ok ([], qs)
   | S k =>
-      match pop_fronts qs with
+      match pop_fronts proto qs with
       | Ok (vs, qs1) =>
-          match pop_raws k qs1 with
+          match pop_raws k proto qs1 with
           | Ok (ps, qs2) => Ok (vs :: ps, qs2)
           | Err e => Err e
           | Panic => Panic
@@ -631,7 +631,7 @@ Fixpoint pop_raws (n : nat) (qs : list (list rvalue)) : res (list (list rvalue) 
 
 (** the complete points still in the queues of a raw iterator *)
 Definition leftover (it : raw_iter) : list (list rvalue) :=
-  match pop_raws (N.to_nat (qr_available (ri_q it))) (q_queues (ri_q it)) with
+  match pop_raws (N.to_nat (qr_available (ri_q it))) (q_proto (ri_q it)) (q_queues (ri_q it)) with
   | Ok (ps, _) => ps
   | _ => []
   end.
